@@ -1037,10 +1037,34 @@ def g_errstate(s, P):
     return P
 
 
+def g_demes_export(s, P):
+    """native models exported as demes graphs (deme order, epochs, migrations, pulses) and re-imported; sparse data dictionaries"""
+    for _ in range(s.randint(1, 2)):
+        r = P.add('demes_export', s.choice([6, 8]), s.randint(0, 3), s.choice([1000.0, 5000.0]), 2)
+        if s.chance(0.3):
+            P.add('ORACLE.demes_output_twice', 8, s.choice([0.1, 0.4]), 0.03, 0.02, s.choice([100, 1000]))
+    if s.chance(0.6):
+        pops = s.choice([['YRI'], ['YRI', 'CEU']])
+        nchrom = [s.choice([6, 8]) for _ in pops]
+        dd = P.add('mk_data_dict', s.randint(0, 3), s.choice([12, 25]), pops, nchrom, s.choice([2, 4]), T('chr1', 'chr2', 'scaffold_10'), s.randint(1, 3))
+        proj = [s.choice([2, 3, 4]) for _ in pops]
+        for _ in range(s.randint(1, 3)):
+            x = s.random()
+            if x < 0.4:
+                P.add('from_data_dict', dd, pops, proj, True, s.chance(0.7))
+            elif x < 0.6:
+                P.add('count_data_dict', dd, pops)
+            elif x < 0.8:
+                P.add('fragment_data_dict', dd, s.choice([150, 400]))
+            else:
+                P.add('bootstraps_from_dd', dd, s.choice([150, 400]), 3, pops, proj)
+    return P
+
+
 TEMPLATES = [
     (g_chain1d, 10), (g_regrid, 4), (g_chain2d, 12), (g_chain3d, 7), (g_chain4d, 6), (g_chain5d, 2), (g_spectrum, 10), (g_numerics, 7),
     (g_badcalls, 5), (g_lowpass, 4), (g_lowpass_model, 2), (g_lowpass_dd, 3), (g_optgrid, 2), (g_nlopt, 2), (g_library, 6), (g_datadict, 5), (g_opthelp, 4), (g_objective, 3), (g_inbreeding, 4), (g_extrap, 5), (g_demes, 6), (g_godambe, 10), (g_godambe_neg, 2), (g_godambe_real, 2),
-    (g_optimisers, 3), (g_xchrom, 3), (g_persist, 4), (g_vcf, 4), (g_lowpass_sim, 3), (g_misc2, 4), (g_errstate, 4),
+    (g_optimisers, 3), (g_xchrom, 3), (g_persist, 4), (g_vcf, 4), (g_lowpass_sim, 3), (g_misc2, 4), (g_errstate, 4), (g_demes_export, 4),
 ]
 
 
